@@ -122,6 +122,8 @@ def apply_pit_masks(pit, spec, masks, vseed: int, fixed=None):
                 for name in (list(cs.keys()) if isinstance(cs, dict) else [None]):
                     pit.get_cost(name) if name is not None else pit.cost
                 pit.summary()
+                if vseed % 3 == 0:
+                    pit.export()                 # ... and exported as it was
         except Exception:  # noqa - whatever fails here fails again, visibly, in the case proper
             pass
         pit.train(was)
